@@ -80,7 +80,7 @@ impl P16E1 {
             }
         }
         // Strip off the hidden bit and round-to-nearest using last 4 bits.
-        frac_z -= 0x1_0000 >> shift;
+        frac_z = frac_z.wrapping_sub(0x1_0000 >> shift);
         let bit_n_plus_one = ((frac_z >> 3) & 1) != 0;
         if bit_n_plus_one && ((((frac_z >> 4) & 1) | (frac_z & 7)) != 0) {
             frac_z += 0x10;
